@@ -112,6 +112,10 @@ def impl(case, verbose=0):
 HISTORY = {}
 
 
+def impl_plain(case):
+    return impl(dict(case), verbose=0)
+
+
 def model_lines(case):
     f, m, s = case["freq"], case["mc"], case["sd"]
     lo, hi = case["range"]
@@ -215,6 +219,7 @@ def run(ctx):
     outs = run_driver(lines)
     prev = None
     import hvsrpy.sesame as ses
+    reverse_order_probe(ctx, "c16", "impl_plain", cases, "verdict-depends-only-on-the-curve-given", "sesame.reliability/clarity in another order / fresh interpreter")
     for i, c in enumerate(cases):
         im = impl(c, verbose=0)
         mo = dict(rel=parse_model(outs[2 * i]), cla=parse_model(outs[2 * i + 1]))
